@@ -15,6 +15,12 @@
 // and non-way members (node, relation) with every role of the role menu, at
 // every position of the sequence. The same oracle applies: the polygons follow
 // the way members; members that are not ways have no influence on them.
+//
+// A third part (relref.go) enumerates small relation graphs whose plain
+// relations have relation-typed members pointing at multipolygon, plain and
+// absent relations with lower and higher IDs, in both source orders, through
+// the in-memory and the PBF source, observed in the world and on the first
+// Read of a fresh feature source.
 package main
 
 import (
@@ -57,20 +63,29 @@ func main() {
 	nq := wk.NamedQueries(qs)
 	kit.Main(&kit.Check{
 		ID: "C29", Level: "exploration",
-		Rule: "every choice of one variant per slot of osmkit.Menu (n2 plain/searchable tag/missing/plain tag; n1, n8 tagged or not; way A closed ccw/cw, open, degenerate, absent; way B joining, inner ring ccw/cw, missing node, open; way C; multipolygon relation M with outer/inner/empty roles, node and missing members; plain relations P and Q over nodes, open ways, closed ways, M, P and missing elements) x ID scheme (way and relation numbers overlapping / disjoint / > 2^32). Non-trivial = at least one way or relation; distinct by the literal input. Oracle: osmkit.Expect (independent coding of the statement's rules and of the documented searchable-key table) -> worldkit reference dump: existence, tags with kinds, E7 points, path references in order, polygons as vertex loops with their path IDs, relation members and roles, referrers, relations/areas by feature, tag searches, EachFeature. Second part, multipolygon member sequences: over a fixed input (nodes n1..n11, closed counter-clockwise ways A=1 square, B=2 triangle inside A, C=3 triangle beside A, plain relation 2) the members of multipolygon relation 1 are every sequence over the member alphabet {way 1,2,3} x role {outer, \"\", inner} (each way at most once) + {node n1, relation 2 [thorough: also an absent node and an absent relation]} x role {\"\", outer, inner, label} (repetition allowed) within the stated numbers of way and non-way members, so non-way members of both types and all four roles occur at every position (before the first ring, between an outer ring and its inner rings, between polygons, after the last ring, adjacent to each other); under the overlap ID scheme node 1 / relation 2 carry the numbers of ways A / B. Ordered by sequence length, then number of non-way members. Non-trivial = the rules define the area (all way members closed and present, first ring not inner); distinct by the literal input. Oracle for the area: a way member with role outer or no role opens a polygon, an inner way member adds a loop to the polygon of the preceding outer, members that are not ways have no influence on the polygons whatever their role and position (osmkit.Expect skips them before looking at the role); all other observations as in the first part.",
+		Rule: "every choice of one variant per slot of osmkit.Menu (n2 plain/searchable tag/missing/plain tag; n1, n8 tagged or not; way A closed ccw/cw, open, degenerate, absent; way B joining, inner ring ccw/cw, missing node, open; way C; multipolygon relation M with outer/inner/empty roles, node and missing members; plain relations P and Q over nodes, open ways, closed ways, M, P and missing elements) x ID scheme (way and relation numbers overlapping / disjoint / > 2^32). Non-trivial = at least one way or relation; distinct by the literal input. Oracle: osmkit.Expect (independent coding of the statement's rules and of the documented searchable-key table) -> worldkit reference dump: existence, tags with kinds, E7 points, path references in order, polygons as vertex loops with their path IDs, relation members and roles, referrers, relations/areas by feature, tag searches, EachFeature. Second part, multipolygon member sequences: over a fixed input (nodes n1..n11, closed counter-clockwise ways A=1 square, B=2 triangle inside A, C=3 triangle beside A, plain relation 2) the members of multipolygon relation 1 are every sequence over the member alphabet {way 1,2,3} x role {outer, \"\", inner} (each way at most once) + {node n1, relation 2 [thorough: also an absent node and an absent relation]} x role {\"\", outer, inner, label} (repetition allowed) within the stated numbers of way and non-way members, so non-way members of both types and all four roles occur at every position (before the first ring, between an outer ring and its inner rings, between polygons, after the last ring, adjacent to each other); under the overlap ID scheme node 1 / relation 2 carry the numbers of ways A / B. Ordered by sequence length, then number of non-way members. Non-trivial = the rules define the area (all way members closed and present, first ring not inner); distinct by the literal input. Oracle for the area: a way member with role outer or no role opens a polygon, an inner way member adds a loop to the polygon of the preceding outer, members that are not ways have no influence on the polygons whatever their role and position (osmkit.Expect skips them before looking at the role); all other observations as in the first part. Third part, relation-typed members: over the same nodes and closed ways, each relation number 1..3 is absent / a multipolygon over the closed way of its number / a plain relation with an ordered sequence of distinct relation-typed members from {the two other numbers, absent relation 88} (roles sub, \"\", outer by position), all acyclic combinations, so plain relations reference multipolygon, plain and absent relations with lower and with higher IDs; the present relations are supplied in ascending and descending [thorough: every] source order, so every reference occurs with its target read earlier and later; each input goes through ingest.MemoryOSMSource and through PBF bytes (osm.NewWriter, read back with osm.ReadPBFWithOptions), Cores/Goroutines = 1. Ordered by number of relations, then members. Non-trivial = some plain relation has a relation-typed member; distinct by source kind + literal input. Oracle: a relation-typed member points at the AREA of the referenced relation iff that relation is in the input and is a multipolygon, otherwise at a relation with that number, whatever the IDs and the source order (osmkit.Expect looks the target up in the whole input); observed (a) in the world (built by the single first Read of a fresh NewFeatureSourceFromPBF source) as in the first part and (b) directly on the RelationFeatures emitted by the FIRST Read of another fresh source: each non-multipolygon relation emitted exactly once with exactly the demanded member IDs and roles, no relation feature for a multipolygon.",
 		Assumptions: []string{
 			"features the build is documented to delete as invalid (BuildOptions.FailInvalidFeatures=false: paths with a missing node or < 2 points, invalid loops, areas over them) are expected absent; clockwise closed ways are expected inverted (BuildOptions.FailClockwisePaths=false); both coded independently in worldkit.ValidSubset",
 			"a multipolygon relation whose way members are not all present closed ways (or that starts with an inner ring) is outside the rules: nothing is demanded of its area and differences naming that area are ignored",
 			"relation membership is acyclic in the menu (cycles belong to C15)",
 			"polygon loops compared up to rotation at E7 precision; tag order within a feature is not compared",
 		},
-		QuickDeadline: 150e9, ThoroughDeadline: 25 * 60e9, Chunk: 64,
+		QuickDeadline: 300e9, ThoroughDeadline: 40 * 60e9, Chunk: 64,
 		WorkerEnv: []string{"GOGC=800", "GOMAXPROCS=2"},
 		Build: func(tier string) (kit.Space, string) {
 			blocks := ok.Blocks(slots, tier)
 			menuN := ok.Total(blocks)
 			mp := newMPSpace(tier)
-			return kit.FuncSpace{N: menuN + mp.Len(), F: func(i int64) kit.Result {
+			rr := newRRSpace(tier)
+			return kit.FuncSpace{N: menuN + mp.Len() + rr.Len(), F: func(i int64) kit.Result {
+				if i >= menuN+mp.Len() {
+					// relation-typed members of plain relations (relref.go)
+					j := i - menuN - mp.Len()
+					c := rr.cases[j]
+					sch := rr.Scheme(c)
+					ev := evaluation{in: c.Input(sch), ids: sch.Name, desc: c.Describe(), sample: j%499 == 0, viaPBF: c.pbf, rr: &c}
+					return ev.run(qs, nq)
+				}
 				if i >= menuN {
 					// multipolygon member sequences (mpseq.go)
 					c := mp.Case(i - menuN)
@@ -81,7 +96,7 @@ func main() {
 				sch := blk.Scheme
 				ev := evaluation{in: ok.Expand(slots, choice, sch), ids: sch.Name, desc: ok.ChoiceNames(slots, choice), sample: i%1009 == 0, viaPBF: blk.ViaPBF}
 				return ev.run(qs, nq)
-			}}, fmt.Sprintf("(1) menu inputs of <= 11 nodes, <= 3 ways, <= 3 relations (slots n2, n1+n8, wayA, wayB, wayC, relM, relP, relQ): %s; (2) multipolygon member sequences (nodes n1..n11, closed ways A=1, B=2 inside A, C=3 beside A, multipolygon relation 1, plain relation 2): every sequence, in every interleaving, of distinct way members {1,2,3} x role {outer,\"\",inner} and non-way members {node, relation} x role {\"\",outer,inner,label} (repetition allowed): %s; %d tag queries each", ok.BlocksString(blocks), mp.String(), len(qs))
+			}}, fmt.Sprintf("(1) menu inputs of <= 11 nodes, <= 3 ways, <= 3 relations (slots n2, n1+n8, wayA, wayB, wayC, relM, relP, relQ): %s; (2) multipolygon member sequences (nodes n1..n11, closed ways A=1, B=2 inside A, C=3 beside A, multipolygon relation 1, plain relation 2): every sequence, in every interleaving, of distinct way members {1,2,3} x role {outer,\"\",inner} and non-way members {node, relation} x role {\"\",outer,inner,label} (repetition allowed): %s; (3) relation graphs over relation numbers 1..3 (same nodes and closed ways; each number absent / multipolygon over the way of its number / plain with an ordered sequence of distinct relation-typed members from {the two other numbers, absent relation 88}, references among plain relations acyclic), every distinct source order of the present relations within the stated orders, each through ingest.MemoryOSMSource and through PBF bytes (osm.NewWriter -> osm.ReadPBFWithOptions): %s; %d tag queries each", ok.BlocksString(blocks), mp.String(), rr.String(), len(qs))
 		},
 	})
 }
@@ -94,6 +109,7 @@ type evaluation struct {
 	sample bool
 	viaPBF bool
 	mp     *mpCase // non-nil: a multipolygon member-sequence case
+	rr     *rrCase // non-nil: a relation-graph case
 }
 
 func (ev *evaluation) run(qs []wk.RQ, nq []wk.NamedQuery) kit.Result {
@@ -160,6 +176,28 @@ func (ev *evaluation) run(qs []wk.RQ, nq []wk.NamedQuery) kit.Result {
 			r.Count("mp-constrained-sequences-with-a-non-way-member-between-a-polygon's-rings", 1)
 		}
 	}
+	if c := ev.rr; c != nil {
+		kind := "memory"
+		if ev.viaPBF {
+			kind = "pbf"
+		}
+		r.Key = kind + " " + r.Key
+		refs := c.refClasses()
+		r.Nontrivial = len(refs) > 0
+		r.Outcome = fmt.Sprintf("relrefs-ok:%d-relations,%d-kinds-of-reference", len(c.order), len(refs))
+		r.Count("relref-graphs["+kind+"]", 1)
+		for _, cl := range refs {
+			r.Count("relref-graphs-with-reference-to:"+cl, 1)
+		}
+		var raw []byte
+		if ev.viaPBF {
+			raw = pbf
+		}
+		checkFirstRead(&r, *c, in, raw, e, kind, "ids "+ev.ids+" "+ev.desc)
+		if len(r.Violations) > 0 {
+			r.Outcome = "diff"
+		}
+	}
 	if len(diffs) > 0 {
 		cls := map[string]bool{}
 		for _, d := range diffs {
@@ -193,6 +231,13 @@ func (ev *evaluation) run(qs []wk.RQ, nq []wk.NamedQuery) kit.Result {
 			if ev.mp != nil {
 				// name the member-sequence class the failing input belongs to
 				c = "multipolygon-members:" + ev.mp.InputClass() + ":" + c
+			}
+			if ev.rr != nil {
+				kind := "memory"
+				if ev.viaPBF {
+					kind = "pbf"
+				}
+				c = "relation-graph[" + kind + "]:world:" + c
 			}
 			r.Violate(c, "ids %s %s\ninput: %s\nexpected features: %s\ndropped: %v\n(A = world, B = rules)\n%s", ev.ids, ev.desc, in, e.Valid, e.Dropped, strings.Join(diffs, "\n"))
 		}
